@@ -31,6 +31,9 @@ EXPLANATION = (
 TRUSTED = ['protobuf copy semantics', 'spec rows taken from the property statement']
 NOT_DECIDED = ['"appears exactly once / no other notes" and "state in effect at every instant" as behaviours of the loops over all inputs']
 ASSUMPTIONS = []
+# rules whose verdict does not depend on how the statements are arranged (semantic analyses); all other rules are shape rules:
+# when one of those fails in a function that was restructured relative to reference/signatures.json the verdict is "cannot decide"
+ROBUST = ('OWN/write', 'OWN/return')
 FLOORS = {'OWN': 100, 'REBUILD': 8, 'GRD': 14, 'REBASE': 5, 'KEY': 4, 'INFO': 2, 'SPLIT': 12, 'ESC': 3}
 
 CLEARED = {'notes', 'time_signatures', 'key_signatures', 'tempos', 'text_annotations', 'control_changes', 'pitch_bends'}
